@@ -68,9 +68,6 @@ def validate(chk: core.Check, items: List[Dict[str, Any]], shards: int = 8) -> T
         if r["err"].startswith("foreign"):
             rejects.append({"item": it, "why": "compile-raised-" + r["err"], "code": r})
             continue
-        if "accept" in it and it["accept"] != r["ok"]:
-            # (C07 reports this itself; here it only keeps the record out of the model comparison's way)
-            pass
         groups.setdefault(json.dumps(it.get("lim")), []).append((n, r))
         if r["ok"] and "first" in it:
             back.append((n, r))
@@ -86,7 +83,9 @@ def validate(chk: core.Check, items: List[Dict[str, Any]], shards: int = 8) -> T
             pth = sc / f"ptrace-{os.getpid()}-{len(jobs)}.ndjson"
             with open(pth, "w") as f:
                 for j, (n, r) in enumerate(part):
-                    f.write(json.dumps({"id": j + 1, "toks": r["toks"], "ok": r["ok"], "err": r["err"], "tree": r["tree"]}) + "\n")
+                    acc = items[n].get("accept")
+                    f.write(json.dumps({"id": j + 1, "toks": r["toks"], "ok": r["ok"], "err": r["err"], "tree": r["tree"],
+                                        "accept": "na" if acc is None else ("yes" if acc else "no")}) + "\n")
             jobs.append(("Trace_Parser", PCFG.format(lo=lo, hi=hi), dict(env={"TRACE_FILE": str(pth)}, workers=2, timeout=3000, heap="3g")))
             index.append(("parser", [n for n, _ in part]))
     if back:
@@ -111,3 +110,23 @@ def validate(chk: core.Check, items: List[Dict[str, Any]], shards: int = 8) -> T
             n = ns[x["reject"] - 1]
             rejects.append({"item": items[n], "why": x["why"], "spec": x.get("spec") or {"parsed": x.get("parsed"), "program": x.get("program")}, "code": recs[n]})
     return rejects, counters
+
+
+def soup_texts(chk: core.Check, mode: str, n: int) -> List[str]:
+    """Query texts of MC_Soup (lexeme soups up to n, or all single-lexeme mutants of the valid sentences)."""
+    from .props import c06
+
+    r = core.tlc("MC_Soup", c06.GEN.format(lang="path", n=n, mode=mode), timeout=3000, workers=8)
+    chk.add_tlc(r)
+    dec = {"EACUTE": "\u00e9", "SUPER2": "\u00b2", "HUGE": "9" * 4400, "SQRUN": "'" + "\\" * 70, "DQRUN": '"' + "\\" * 70, "RERUN": "/" + "\\" * 70}
+    return sorted({"".join(dec.get(x, x) for x in rec["s"]) for rec in r.records})
+
+
+def report(chk: core.Check, rejects: List[Dict[str, Any]], label: str) -> None:
+    for rj in rejects:
+        it = rj["item"]
+        code = rj.get("code") or {}
+        kind = "accepted" if code.get("ok") else ("refused-" + str(code.get("err")))
+        chk.violation(f"{label}:{rj['why']}|code-{kind}", {"query": it["text"], "limits": it.get("lim"), "why": rj["why"],
+                                                           "specification": str(rj.get("spec"))[:600], "code_tree": str(code.get("tree"))[:600]},
+                      f"{rj['why']}: {it['text'][:80]!r}")
